@@ -81,6 +81,7 @@ func EngineCallRefLinkAndCheck(allNg map[string]*runtime.Script, allErrNg map[st
 		}
 
 		sPath := newSearchPath()
+		verifEv("visit", name, sPath.path, sPath.nodeMap, retMap)
 		if err := dfs(name, proc, sPath, p); err != nil {
 			retErrMap[name] = err
 		} else {
@@ -93,10 +94,13 @@ func EngineCallRefLinkAndCheck(allNg map[string]*runtime.Script, allErrNg map[st
 
 func dfs(name string, procc *runtime.Script, sPath *searchPath, p *param) error {
 	if err := sPath.Push(name); err != nil {
+		verifEv("cycle", name, sPath.path, sPath.nodeMap, p.retMap)
 		return errchain.NewErr(p.name, p.namePos, err.Error())
 	}
+	verifEv("push", name, sPath.path, sPath.nodeMap, p.retMap)
 
 	if _, ok := p.retMap[name]; ok {
+		verifEv("early", name, sPath.path, sPath.nodeMap, p.retMap)
 		return nil
 	}
 
@@ -108,6 +112,7 @@ func dfs(name string, procc *runtime.Script, sPath *searchPath, p *param) error 
 		}
 
 		if cNg, ok := p.allNg[cName]; !ok {
+			verifEv("fail", procc.Name, cName, expr, procc.CallRef, sPath.path, sPath.nodeMap, p.retMap)
 			if err, ok := p.allErrNg[cName]; ok {
 				if e, ok := err.(*errchain.PlError); ok {
 					return e.Copy().ChainAppend(
@@ -119,7 +124,9 @@ func dfs(name string, procc *runtime.Script, sPath *searchPath, p *param) error 
 				fmt.Sprintf("script %s not found", cName))
 		} else {
 			expr.PrivateData = cNg
+			verifEv("bind", procc.Name, cName, expr, procc.CallRef, sPath.path, sPath.nodeMap, p.retMap)
 			if err := dfs(cName, cNg, sPath, p); err != nil {
+				verifEv("unwind", procc.Name, cName, expr, procc.CallRef, sPath.path, sPath.nodeMap, p.retMap)
 				if e, ok := err.(*errchain.PlError); ok {
 					return e.Copy().ChainAppend(procc.Name, p.namePos)
 				}
@@ -130,6 +137,7 @@ func dfs(name string, procc *runtime.Script, sPath *searchPath, p *param) error 
 
 	p.retMap[name] = procc
 	sPath.Pop()
+	verifEv("pop", name, sPath.path, sPath.nodeMap, p.retMap)
 
 	return nil
 }
